@@ -253,12 +253,14 @@ def run(ch: Choices, opts: Dict[str, Any]) -> Dict[str, Any]:
         raise Violation("controller", f"controller-fault-on-delivery|{type(e).__name__}|{variant}|{hw}",
                         {"task": task.name, "error": str(e)[:300], **sample})
     sched.on_error = on_error
-    cap = 40000
+    from sim.rigs.controller import LivenessWatch
+    watch = LivenessWatch(sched, [creator, receiver], net.link, window=8000, hard=400000)
     while not done():
         if sched.step() is None:
             raise Violation("liveness", f"liveness|deadlock|{variant}|{hw}", dict(sample))
-        if sched.steps > cap:
-            raise Violation("liveness", f"liveness|no-progress|{variant}|{hw}", dict(sample))
+        stuck = watch.verdict()
+        if stuck:
+            raise Violation("liveness", f"liveness|{stuck}|{variant}|{hw}", dict(sample))
     net.link.stop()
     errs = net.errors()
     if errs:
